@@ -26,7 +26,20 @@ FULL = ('s', None, None, None)
 
 
 class Truth:
-    pass
+    weather = None
+
+
+V4_WEATHER = {'temperature': 'anc_air_temperature', 'pressure': 'anc_air_pressure',
+              'humidity': 'anc_air_relative_humidity', 'wind_speed': 'anc_mean_wind_speed',
+              'wind_direction': 'anc_wind_direction'}
+V3_WEATHER = {'temperature': 'anc/air_temperature', 'pressure': 'anc/air_pressure',
+              'humidity': 'anc/air_relative_humidity', 'wind_speed': 'anc/mean_wind_speed',
+              'wind_direction': 'anc/wind_direction'}
+
+
+def weather_ramps(rng):
+    """linear sensor histories from one dump before the first to one dump after the last dump: (first, last) value"""
+    return {k: (float(rng.randint(0, 50)), float(rng.randint(51, 100))) for k in V4_WEATHER}
 
 
 def build(case, tmp):
@@ -40,7 +53,10 @@ def build(case, tmp):
         if case.get('via_rdb'):
             os.makedirs(os.path.join(tmp, 'store'), exist_ok=True)
             extra = dict(store_dir=os.path.join(tmp, 'store'), rdb_path=os.path.join(tmp, 'syn_sdp_l0.full.rdb'))
+        tr.weather = weather_ramps(rng)
+        wx = {V4_WEATHER[k]: [(-1.0, a), (case['T'] + 1.0, b)] for k, (a, b) in tr.weather.items()}
         syn = v4synth.make_v4(rng, T=case['T'], F=case['F'], n_ants=case['n_ants'], shuffle_bls=True, **extra,
+                              extra_sensors=wx,
                               activity=[(-1.0, 'slew'), (case['T'] // 3 + 0.5, 'track'), (2 * case['T'] // 3 + 0.5, 'scan')])
         d = syn.dataset
         tr.vis = syn.stored['correlator_data']
@@ -52,8 +68,10 @@ def build(case, tmp):
     from harness import h5synth
     path = os.path.join(tmp, f'{fmt}.h5')
     if fmt == 'v3':
+        tr.weather = weather_ramps(rng)
+        wx = {V3_WEATHER[k]: [(-1.0, a), (case['T'] + 1.0, b)] for k, (a, b) in tr.weather.items()}
         syn = h5synth.make_v3(path, rng, T=case['T'], F=case['F'], n_ants=case['n_ants'], shuffle_bls=True,
-                              dup_final_dump=case['dup'], sideband=case['sideband'],
+                              dup_final_dump=case['dup'], sideband=case['sideband'], extra_sensors=wx,
                               open_kwargs={'keepdims': case['keepdims']})
         tr.keepdims = case['keepdims']
     elif fmt == 'v2':
@@ -96,6 +114,9 @@ def gen_select(rng, case, T, F, B):
         else:
             a = rng.randint(0, T)
             kw[k] = [a, rng.randint(a, T)]
+    if case['fmt'] == 'v4' and rng.random() < 0.35:
+        from katdal.flags import NAMES
+        kw['flags'] = rng.choice(['all', ','.join(rng.sample(list(NAMES), rng.randint(1, 4)))])
     reset = rng.choice([None, None, None, '', 'T', 'B', 'TFB'])
     return dict(kw=kw, reset=reset)
 
@@ -207,15 +228,27 @@ def mask_str(n, idxs):
     return ''.join(s)
 
 
+def flag_mask(names):
+    from katdal.flags import NAMES
+    if names == 'all':
+        return 0xFF
+    return sum(1 << NAMES.index(n) for n in names.split(',') if n in NAMES)
+
+
 def drive(ctx, case, d, tr):
     nontrivial = False
     T, F, B = len(tr.timestamps), len(tr.freqs), len(tr.corrprods)
+    fmask = 0xFF       # flags selection in force (v4 only; persists until the next flags= criterion)
     for op in case['ops']:
         # snapshot: acquire indexers under the current selection
         snap = None
         if op['snapshot']:
             cp_now = [tr.corrprods.index(tuple(c)) for c in d.corr_products]
-            snap = dict(ind=(d.vis, d.flags, d.weights), dumps=list(d.dumps), chans=list(d.channels), cp=cp_now)
+            snap = dict(ind=(d.vis, d.flags, d.weights), dumps=list(d.dumps), chans=list(d.channels), cp=cp_now,
+                        fmask=fmask)
+        if 'flags' in op['select']['kw']:
+            fmask = flag_mask(op['select']['kw']['flags'])
+            ctx.tag('flags-selection' + ('-all' if fmask == 0xFF else ''))
         try:
             d.select(**to_kwargs(op['select'], d, tr))
         except Exception as e:   # noqa: BLE001  - invalid criterion (e.g. unknown state): not this property
@@ -253,6 +286,20 @@ def drive(ctx, case, d, tr):
         full = np.asarray(d.sensor.get('Observation/scan_index')[:])
         if si.shape != (shape[0],) or not np.array_equal(si, full[dumps]):
             return 'per-dump sensor array is not the full-length sensor restricted to dumps', nontrivial
+        # the weather properties (temperature, pressure, ...) are per-dump sensor arrays of the selected dumps
+        if tr.weather:
+            for prop, (a, b) in tr.weather.items():
+                try:
+                    got = np.asarray(getattr(d, prop), dtype=float)
+                except Exception as e:   # noqa: BLE001
+                    return f'd.{prop} raised {type(e).__name__}: {str(e)[:80]}', nontrivial
+                want = np.array([a + (b - a) * (i + 1.0) / (T + 1.0 + 1.0) for i in dumps])
+                if got.shape != want.shape:
+                    return (f'd.{prop} has {got.shape[0] if got.ndim else 0} values for {len(dumps)} selected dumps'), nontrivial
+                if not np.allclose(got, want, rtol=0, atol=1e-6):
+                    return (f'd.{prop} = {got.tolist()[:4]} is not the sensor history interpolated at the selected '
+                            f'dumps {dumps[:4]}: {want.tolist()[:4]}'), nontrivial
+            ctx.tag('weather')
         # --- second-stage reads
         rng = random.Random(op['ix_seed'])
         k2 = gen_ix(rng, shape, case['fmt'])
@@ -270,7 +317,8 @@ def drive(ctx, case, d, tr):
         except Exception as e:   # noqa: BLE001
             return (f'reading vis/flags/weights with second-stage index {ixgen.enc_tuple(k2)} on selection of shape '
                     f'{shape} raised {type(e).__name__}: {str(e)[:100]}'), nontrivial
-        exp = [apply_second_stage(a, sels_src, tr.keepdims) for a in (tr.vis, tr.flags_raw != 0, tr.weights)]
+        exp = [apply_second_stage(a, sels_src, tr.keepdims)
+               for a in (tr.vis, (tr.flags_raw & np.uint8(fmask)) != 0, tr.weights)]
         for name, g, e in zip(('vis', 'flags', 'weights'), got, exp):
             if g.shape != e.shape:
                 return f'{name}[{ixgen.enc_tuple(k2)}] has shape {g.shape}, outer indexing of the selection gives {e.shape}', nontrivial
@@ -284,7 +332,8 @@ def drive(ctx, case, d, tr):
             ctx.tag('ix2-' + ix[0])
         # --- snapshot
         if snap is not None:
-            blk = [a[np.ix_(snap['dumps'], snap['chans'], snap['cp'])] for a in (tr.vis, tr.flags_raw != 0, tr.weights)]
+            blk = [a[np.ix_(snap['dumps'], snap['chans'], snap['cp'])]
+                   for a in (tr.vis, (tr.flags_raw & np.uint8(snap['fmask'])) != 0, tr.weights)]
             try:
                 got = [np.asarray(i[:]) for i in snap['ind']]
             except Exception as e:   # noqa: BLE001
